@@ -437,6 +437,8 @@ def _chunks_enc(res, arg, tier):
 
 # ---------------- one incremental object, several documents: after reset() it treats the next document like a fresh object
 RESET_FIRST = ['@charset "utf-8";a', 'a{}', '@charset "x";\xe9']
+RESET_UNDECIDED = [b'\xef', b'\xef\xbb', b'\xff', b'\xff\xfe', b'\x00\x00', b'@', b'@cha', b'@charset "utf-1']
+RESET_UNDECIDED_TEXT = ['@', '@cha', '@charset "utf-1']
 
 
 def _reset_reuse(res, arg, tier):
@@ -478,6 +480,58 @@ def _reset_reuse(res, arg, tier):
                 res.violation('C07.chunks.decoder', f'after-reset|{_diff_kind(want_text, got)}|first={_tclass(first)}', dict(case, cut=cut, what='decoder'),
                               _show(want_text), _show(got))
                 break
+    # ... also when the first input was abandoned while the encoding was still undecided (nothing of it may reach the next document)
+    auto_ok = _c(enc) in BOM_ENC or _c(enc) == 'utf-8' or (ref.text_charset(text) is not None and (_c(enc) in ASCII_COMPAT or _c(enc) in WIDE_NOBOM))
+    for given, force in ((None, True), (enc, False)):
+        if given is None and not auto_ok:
+            continue
+        try:
+            want = ref.decode(want_bytes, given, force)
+        except UnicodeError:
+            continue
+        for first_bytes in RESET_UNDECIDED:
+            case = {'kind': 'reset-reuse', 'text': text, 'encoding': enc, 'first': first_bytes.hex(), 'mode': ['auto' if given is None else 'given', force]}
+            res.evaluations += 1
+            res.clauses['C07.chunks.reset'] += 1
+            for cut in sorted({0, 1, 2, 3, len(want_bytes)}):
+                if cut > len(want_bytes):
+                    continue
+                res.transitions += 1
+                obj = cc.IncrementalDecoder(encoding=given, force=force)
+                try:
+                    head = obj.decode(first_bytes, False)
+                except UnicodeError:
+                    break
+                if head != '':
+                    break  # (the encoding was decided: covered above)
+                obj.reset()
+                try:
+                    got = obj.decode(want_bytes[:cut], False) + obj.decode(want_bytes[cut:], True)
+                except Exception as e:
+                    got = 'RAISED ' + type(e).__name__
+                if got != want:
+                    res.violation('C07.chunks.decoder', f'after-reset-of-an-undecided-decoder|{_diff_kind(want, got) if not got.startswith("RAISED") else got}', dict(case, cut=cut, what='decoder'),
+                                  _show(want), _show(got))
+                    break
+    if ref.text_charset(text) is not None or _c(enc) == 'utf-8':
+        want = ref.encode(text, None)
+        for first in RESET_UNDECIDED_TEXT:
+            case = {'kind': 'reset-reuse', 'text': text, 'encoding': enc, 'first': first, 'mode': 'from-rule'}
+            res.evaluations += 1
+            res.clauses['C07.chunks.reset'] += 1
+            for cut in sorted({0, 1, len(text)}):
+                res.transitions += 1
+                obj = cc.IncrementalEncoder(encoding=None)
+                if obj.encode(first, False) != b'':
+                    break
+                obj.reset()
+                try:
+                    got = obj.encode(text[:cut], False) + obj.encode(text[cut:], True)
+                except Exception as e:
+                    got = ('RAISED ' + type(e).__name__).encode()
+                if got != want:
+                    res.violation('C07.chunks.encoder', f'after-reset-of-an-undecided-encoder|{_diff_kind(want, got)}', dict(case, cut=cut, what='encoder'), _show(want), _show(got))
+                    break
     res.outcomes.add(h64(('reset', enc, _tclass(text))))
 
 
